@@ -677,6 +677,10 @@ func runConc(e *env) {
 		}
 		e.probe("closure of references checked at quiescence")
 	}
+	// the Get shapes the readers used while the RIB was changing, asked again now that everything is quiet
+	for _, st := range readers {
+		e.checkGetAgainstImpl([]string{"C07", "C11"}, st.Get.NI, st.Get.All, spb.AFTType(st.Get.AFT), "after the concurrent run")
+	}
 	// whatever interleaved: once everything is quiet, nothing the implementation holds is resolvable
 	if h := e.implHeldResolvable(); len(h) > 0 {
 		e.report("C11", "resolvable-left-held", "an operation is still held at quiescence although everything it references is installed", fmt.Sprint(h), false)
